@@ -84,7 +84,7 @@ def shrink_candidates(c):
     for i in range(n):
         d = dict(c); d["ops"] = ops[:i] + ops[i + 1:]; yield d
 
-LEVEL_TEXT = ("Seven theorems (Props/C12.v) over EVERY history of put/get/delete/clear/size/stats/keys/cleanup calls with non-decreasing time stamps, "
+LEVEL_TEXT = ("Nine theorems (Props/C12.v; the two added ones: a sweep never takes an entry stored inside its lifetime, a lookup that misses leaves the key absent) over EVERY history of put/get/delete/clear/size/stats/keys/cleanup calls with non-decreasing time stamps, "
               "every capacity and lifetime, on the executable model Model/Lru.v: capacity bound and one entry per key; eviction of exactly the least "
               "recently touched entry; ghost fields follow the history; a hit returns the last stored value; never a value older than the lifetime; "
               "sweeps remove only expired entries; statistics are exact. The model is tied to internal/cache/lru_cache.go on every run: generated "
